@@ -530,26 +530,55 @@ func ruleQuicAddressee(r *core.Report, ruleID string) {
 			}
 			r.Check(okG && bad == "", ruleID, core.FnName(ws)+" dial identity check", p.Pos(dial.Pos()), "a dialled session is cached and used only when the peer's identity equals the requested one", "after dialling, "+bad+" is reachable without the peer's authenticated identity having been compared with the requested one: a Tell/Ask addressed to X is sent to whoever answered")
 		}
-		// cache lookup key contains the full destination (dst.Key())
+		// cache lookup key contains the full destination (dst.Key()); the lookup may sit in withSession itself or
+		// in a helper it hands its destination to
 		okKey := false
-		for _, in := range core.AllInstrs(ws) {
-			lk, ok := in.(*ssa.Lookup)
-			if !ok {
-				continue
-			}
-			if f, _ := core.FieldRead(lk.X); f == nil || f.Name() != "sessCache" {
-				continue
-			}
-			okKey = core.DerivesFrom(lk.Index, func(x ssa.Value) bool {
-				c, ok := x.(*ssa.Call)
-				if !ok {
-					return false
+		nLookups := 0
+		keyOf := func(fn *ssa.Function, dstVal func(ssa.Value) bool) bool {
+			ok, seen := true, false
+			for _, in := range core.AllInstrs(fn) {
+				lk, isL := in.(*ssa.Lookup)
+				if !isL {
+					continue
 				}
-				sc := core.StaticCallee(c.Common())
-				return sc != nil && sc.Name() == "Key" && (core.Through(c.Call.Args[0]) == ssa.Value(ws.Params[2]) || core.DerivesFromDirect(c.Call.Args[0], func(y ssa.Value) bool { return y == ssa.Value(ws.Params[2]) }))
-			})
-			if !okKey {
-				break
+				if f, _ := core.FieldRead(lk.X); f == nil || f.Name() != "sessCache" {
+					continue
+				}
+				seen = true
+				nLookups++
+				if !core.DerivesFrom(lk.Index, func(x ssa.Value) bool {
+					c, isC := x.(*ssa.Call)
+					if !isC {
+						return false
+					}
+					sc := core.StaticCallee(c.Common())
+					return sc != nil && sc.Name() == "Key" && (dstVal(core.Through(c.Call.Args[0])) || core.DerivesFromDirect(c.Call.Args[0], dstVal))
+				}) {
+					ok = false
+				}
+			}
+			return ok && seen
+		}
+		isDst := func(v ssa.Value) bool { return v == ssa.Value(ws.Params[2]) }
+		okKey = keyOf(ws, isDst)
+		if nLookups == 0 {
+			for _, in := range core.AllInstrs(ws) {
+				hc, isC := in.(*ssa.Call)
+				if !isC {
+					continue
+				}
+				g := core.StaticCallee(hc.Common())
+				if g == nil || !p.InModule(g) || g.Blocks == nil {
+					continue
+				}
+				for ai, a := range hc.Call.Args {
+					if ai < len(g.Params) && (isDst(core.Through(a)) || core.DerivesFromDirect(a, isDst)) {
+						prm := g.Params[ai]
+						if keyOf(g, func(v ssa.Value) bool { return v == ssa.Value(prm) }) {
+							okKey = true
+						}
+					}
+				}
 			}
 		}
 		r.Check(okKey, ruleID, core.FnName(ws)+" cache key", p.Pos(ws.Pos()), "cached sessions are found under the destination's full text (identity included)", "the session cache is looked up with a key that does not contain the requested identity")
